@@ -18,8 +18,12 @@ var kidPool = []kidSpec{
 	{APIVersion: "v1", Resource: "namespaces", Kind: "Namespace", Namespaced: false},
 }
 
+// twinKid: a kind with the name (and plural) of the core Pod, in a named API group
+var twinKid = kidSpec{APIVersion: "serving.example.com/v1", Resource: "pods", Kind: "Pod", Namespaced: true}
+
 type gen struct {
 	oddMethods bool // C06 only: child kinds with an update method the controller does not know
+	twins      bool // C03, C06: sometimes a second child kind called Pod, in a named API group
 	r   *vh.Rng
 	adv bool
 }
@@ -109,6 +113,21 @@ func (g *gen) basic(family string, i int, seed uint64) *scenario {
 			}
 		}
 		ctl.Kids = append(ctl.Kids, k)
+	}
+	if g.twins && r.Chance(1, 4) {
+		for _, k := range ctl.Kids {
+			if k.Resource == "pods" {
+				// the core Pod's namesake in a named group, with a method of its own
+				t := twinKid
+				t.Method = plainMethods[r.Intn(len(plainMethods))]
+				for tries := 0; tries < 4 && t.Method == k.Method; tries++ {
+					t.Method = plainMethods[r.Intn(len(plainMethods))]
+				}
+				ctl.Kids = append(ctl.Kids, t)
+				sc.Features = append(sc.Features, "same-kind-in-two-groups")
+				break
+			}
+		}
 	}
 	if r.Chance(1, 5) {
 		ctl.CtlSelector = map[string]string{"managed": "yes"}
@@ -844,6 +863,15 @@ func (g *gen) faulty(i int, seed uint64) *scenario {
 	return sc
 }
 
+func (sc *scenario) hasFeature(f string) bool {
+	for _, x := range sc.Features {
+		if x == f {
+			return true
+		}
+	}
+	return false
+}
+
 func (sc *scenario) hookFor() *hookProgram {
 	if sc.Hook2 != nil {
 		return sc.Hook2
@@ -878,6 +906,10 @@ func (g *gen) rollout(i int, seed uint64, fair bool) *scenario {
 	ctl.Kids = []kidSpec{kid}
 	if r.Chance(1, 4) {
 		k2 := kidPool[1-indexOfKid(kid)]
+		if kid.Resource == "pods" && r.Chance(1, 3) {
+			k2 = twinKid // two child kinds called Pod, told apart by their API group only
+			sc.Features = append(sc.Features, "same-kind-in-two-groups")
+		}
 		k2.Method = plainMethods[r.Intn(len(plainMethods))]
 		if r.Bool() {
 			// a second rolling kind with a strategy of its own
@@ -1258,7 +1290,7 @@ func generateScenarios(prop string, seed uint64, n int, adv bool) []*scenario {
 	var out []*scenario
 	for i := 0; i < n; i++ {
 		r, s := root.Fork()
-		g := &gen{r: r, adv: adv, oddMethods: prop == "C06"}
+		g := &gen{r: r, adv: adv, oddMethods: prop == "C06", twins: prop == "C06" || prop == "C03"}
 		switch {
 		case prop == "C02" && i%2 == 1:
 			out = append(out, g.race(i, s))
@@ -1505,6 +1537,13 @@ func generateScenarios(prop string, seed uint64, n int, adv bool) []*scenario {
 			out = append(out, g.statusy(i, s))
 		case prop == "C07":
 			out = append(out, g.rollout(i, s, i%3 == 0))
+		case (prop == "C08" && i%4 == 1) || (prop == "C07" && i%8 == 1):
+			// two rolling child kinds with the same kind name, told apart by their API group only
+			sc := g.rollout(i, s, true)
+			for tries := 0; tries < 60 && !(sc.hasFeature("same-kind-in-two-groups") && sc.hasFeature("two-rolling-kinds")); tries++ {
+				sc = g.rollout(i, s, true)
+			}
+			out = append(out, sc)
 		case prop == "C08":
 			out = append(out, g.rollout(i, s, true))
 		case prop == "C09" && i%6 == 5:
@@ -1597,6 +1636,25 @@ func generateScenarios(prop string, seed uint64, n int, adv bool) []*scenario {
 				k := sc.Ctl.Kids[r.Intn(len(sc.Ctl.Kids))]
 				sc.Rounds[0].FaultOn = []faultOn{{Verb: "update", Kind: k.Kind, AfterHook: true, Nth: 0, Fault: J{"code": 422, "reason": "Invalid"}}}
 				sc.Features = append(sc.Features, "child-update-refused-422")
+			}
+			out = append(out, sc)
+		case prop == "C06" && i%5 == 2:
+			// two child kinds with the same kind name in different API groups, each with its own method
+			sc := g.basic("basic", i, s)
+			for tries := 0; tries < 60 && !(sc.hasFeature("same-kind-in-two-groups") && len(sc.Hook.Children) > 1); tries++ {
+				sc = g.basic("basic", i, s)
+			}
+			out = append(out, sc)
+		case prop == "C06" && i%5 == 1:
+			// a hook that round-trips the metadata it observed: every desired child carries the annotations
+			// of the observed one, the controller's own bookkeeping annotation included
+			sc := g.basic("basic", i, s)
+			if !sc.Hook.PlainOwnerRef && len(sc.Hook.Children) > 0 {
+				sc.Hook.Kind, sc.Warmup = "echo-meta", true
+				if len(sc.Rounds) < 2 {
+					sc.Rounds = append(sc.Rounds, roundSpec{})
+				}
+				sc.Features = append(sc.Features, "hook-echo-annotations")
 			}
 			out = append(out, sc)
 		case prop == "C19c":
@@ -1713,6 +1771,12 @@ func generateScenarios(prop string, seed uint64, n int, adv bool) []*scenario {
 				sc.LongLived = true
 				sc.Features = append(sc.Features, "long-lived-controller")
 			}
+		}
+		// the order of a discovery document's resource list is not specified: a third of all scenarios see
+		// every "x/status" entry before its "x"
+		if i%3 == 2 {
+			sc.SubFirst = true
+			sc.Features = append(sc.Features, "discovery-lists-subresources-first")
 		}
 	}
 	return out
